@@ -54,6 +54,7 @@ struct Eval {
     degree_claims_judged: usize,
     reports: usize,
     nodes_with_value: usize,
+    pass_claims: usize,
 }
 
 fn count_value_nodes(cfg: &Cfg) -> usize {
@@ -69,7 +70,7 @@ fn count_value_nodes(cfg: &Cfg) -> usize {
     n
 }
 
-fn evaluate(prelude: &str, src: &str, curve_idx: usize, oracle_seed: u64, valuations: usize, lines: usize) -> Eval {
+fn evaluate(path: &std::path::Path, prelude: &str, src: &str, curve_idx: usize, oracle_seed: u64, valuations: usize, lines: usize) -> Eval {
     let mut e = Eval::default();
     let curve = Curve::from_str(CURVES[curve_idx]).unwrap_or_default();
     // another definition lifted first on the same thread (its propagation may be the one
@@ -82,17 +83,62 @@ fn evaluate(prelude: &str, src: &str, curve_idx: usize, oracle_seed: u64, valuat
             }
         }
     }
-    let Some(def) = parser::parse_definition(src) else { return e };
+    // the judged definition goes through the file-based parser so that it has a file id and
+    // the reports of the passes carry labels that can be matched to IR statements
+    if std::fs::write(path, src).is_err() {
+        return e;
+    }
+    let (templates, functions) = match parser::parse_files(&[path.to_path_buf()], &[], &program_analysis::config::COMPILER_VERSION) {
+        parser::ParseResult::Program(p, _) => (p.templates, p.functions),
+        parser::ParseResult::Library(l, _) => (l.templates, l.functions),
+    };
     let mut reports = ReportCollection::new();
-    let Ok(cfg) = def.into_cfg(&curve, &mut reports) else { return e };
+    let lifted = if let Some(t) = templates.values().next() {
+        t.into_cfg(&curve, &mut reports)
+    } else if let Some(f) = functions.values().next() {
+        f.into_cfg(&curve, &mut reports)
+    } else {
+        return e;
+    };
+    let Ok(cfg) = lifted else { return e };
     let Ok(cfg) = cfg.into_ssa() else { return e };
     e.lifted = true;
     e.nodes_with_value = count_value_nodes(&cfg);
     // (1) all passes run to completion on the (possibly cut) CFG; a panic unwinds to run_in_sim
     let mut ctx = NoContext;
+    let mut pass_reports = ReportCollection::new();
     for pass in get_analysis_passes() {
-        e.reports += pass(&mut ctx, &cfg).len();
+        pass_reports.extend(pass(&mut ctx, &cfg));
     }
+    e.reports = pass_reports.len();
+    // (4) claims made by the passes themselves, matched to IR nodes through their labels
+    let mut quadratic_claims: Vec<(crate::interp::NodeId, usize, String)> = Vec::new();
+    let mut always_claims: Vec<(crate::interp::NodeId, bool, String)> = Vec::new();
+    for r in &pass_reports {
+        let Some(label) = r.primary().first() else { continue };
+        for bb in cfg.iter() {
+            for s in bb.iter() {
+                match (r.id().as_str(), s) {
+                    ("CS0013", program_structure::ir::Statement::Substitution { meta, rhe, op: program_structure::ir::AssignOp::AssignSignal, .. })
+                        if meta.file_location() == label.range =>
+                    {
+                        // `update(...)` wraps the assigned value for array elements and ports
+                        let node = match rhe {
+                            program_structure::ir::Expression::Update { rhe: inner, .. } => inner.as_ref(),
+                            other => other,
+                        };
+                        quadratic_claims.push((crate::interp::node_id(node), 2, format!("`<--` reported as rewritable with `<==`: {node:?}")));
+                    }
+                    ("CS0009", program_structure::ir::Statement::IfThenElse { cond, .. }) if cond.meta().file_location() == label.range => {
+                        let always = label.message.contains("always true");
+                        always_claims.push((crate::interp::node_id(cond), always, format!("{cond:?}")));
+                    }
+                    _ => {}
+                }
+            }
+        }
+    }
+    e.pass_claims = quadratic_claims.len() + always_claims.len();
     // (2) constants
     let p: BigInt = gen::PRIMES[curve_idx].parse().unwrap();
     let field = Field::new(&p);
@@ -121,6 +167,19 @@ fn evaluate(prelude: &str, src: &str, curve_idx: usize, oracle_seed: u64, valuat
         it.pre_signals = pre;
         it.run();
         e.value_claims_checked += it.trace.claims_checked;
+        for (id, always, text) in &always_claims {
+            if let Some(vals) = it.trace.node_values.get(id) {
+                for v in vals.iter().flatten() {
+                    use num_traits::Zero;
+                    if v.is_zero() == *always && it.trace.violation.is_none() {
+                        it.trace.violation = Some(crate::interp::ClaimViolation {
+                            kind: "finding-wrong:constant-branch-condition".into(),
+                            detail: format!("the condition `{text}` is reported as always {always} but evaluates to {v} (path {:?})", it.trace.path),
+                        });
+                    }
+                }
+            }
+        }
         if let Some(v) = it.trace.violation {
             e.verdict = Some((v.kind, v.detail));
             return e;
@@ -128,7 +187,7 @@ fn evaluate(prelude: &str, src: &str, curve_idx: usize, oracle_seed: u64, valuat
     }
     // (3) degree bounds
     for _ in 0..lines {
-        let (judged, v) = check_degrees(&cfg, &field, r.next_u64(), r.next_u64());
+        let (judged, v) = check_degrees(&cfg, &field, r.next_u64(), r.next_u64(), &quadratic_claims);
         e.degree_claims_judged += judged;
         if let Some(v) = v {
             e.verdict = Some((v.kind, v.detail));
@@ -190,6 +249,7 @@ struct DefRes {
     violation: Option<(String, String, Value)>,
     sim_ns: i64,
     facts_lost_by_cut: usize,
+    pass_claims: usize,
 }
 
 #[derive(Clone)]
@@ -199,10 +259,11 @@ struct Sched {
     label: String,
 }
 
-fn one(seed: u64, i: usize, keys: usize, pairs: usize, valuations: usize, lines: usize) -> DefRes {
+fn one(scratch: &std::path::Path, seed: u64, i: usize, keys: usize, pairs: usize, valuations: usize, lines: usize) -> DefRes {
+    let path = scratch.join(format!("def{i}.circom"));
     let (src, curve_idx) = gen_source(seed, i);
     let prelude = gen_prelude(seed, i);
-    let mut res = DefRes { evals: 0, usable: false, reads: 0, cut_points: 0, pair_cuts: 0, stalls_fired: 0, value_claims: 0, degree_claims: 0, violation: None, sim_ns: 0, facts_lost_by_cut: 0 };
+    let mut res = DefRes { evals: 0, usable: false, reads: 0, cut_points: 0, pair_cuts: 0, stalls_fired: 0, value_claims: 0, degree_claims: 0, violation: None, sim_ns: 0, facts_lost_by_cut: 0, pass_claims: 0 };
     let mut rk = Rng::new(seed).sub_n("C20-sched", i as u64);
     for _ki in 0..keys {
         let key = rk.bytes16();
@@ -212,7 +273,8 @@ fn one(seed: u64, i: usize, keys: usize, pairs: usize, valuations: usize, lines:
             let plan = SimPlan { key, clock_seed, max_step_ns: 50_000, stalls: sched.stalls.clone(), stall_permille: sched.permille };
             let s = src.clone();
             let pre = prelude.clone();
-            let (out, stats) = run_in_sim(&plan, move || evaluate(&pre, &s, curve_idx, oracle_seed, valuations, lines));
+            let pth = path.clone();
+            let (out, stats) = run_in_sim(&plan, move || evaluate(&pth, &pre, &s, curve_idx, oracle_seed, valuations, lines));
             res.evals += 1;
             res.sim_ns += stats.sim_ns;
             res.stalls_fired += stats.stalls_fired;
@@ -269,6 +331,7 @@ fn one(seed: u64, i: usize, keys: usize, pairs: usize, valuations: usize, lines:
                 if e.nodes_with_value < e0.nodes_with_value {
                     res.facts_lost_by_cut += 1;
                 }
+                res.pass_claims += e.pass_claims;
             }
             if res.violation.is_some() {
                 return res;
@@ -306,6 +369,8 @@ pub fn run(env: &Env) -> i32 {
     let (n, keys, pairs, valuations, lines) = if env.quick() { (500, 1, 4, 6, 3) } else { (12_000, 4, 16, 32, 8) };
     let n = std::env::var("VERIF_RUNS").ok().and_then(|s| s.parse().ok()).unwrap_or(n);
     let seed = env.seed;
+    let ldir = env.scratch.join("L");
+    let _ = std::fs::create_dir_all(&ldir);
     let next = AtomicUsize::new(0);
     let slots: Vec<Mutex<Option<DefRes>>> = (0..n).map(|_| Mutex::new(None)).collect();
     std::thread::scope(|s| {
@@ -315,7 +380,7 @@ pub fn run(env: &Env) -> i32 {
                 if i >= n {
                     break;
                 }
-                *slots[i].lock().unwrap() = Some(one(seed, i, keys, pairs, valuations, lines));
+                *slots[i].lock().unwrap() = Some(one(&ldir, seed, i, keys, pairs, valuations, lines));
             });
         }
     });
@@ -359,6 +424,7 @@ pub fn run(env: &Env) -> i32 {
     cov.insert("max_clock_reads_of_one_definition".into(), json!(results.iter().map(|r| r.reads).max().unwrap_or(0)));
     cov.insert("clock_stalls_fired".into(), json!(results.iter().map(|r| r.stalls_fired).sum::<usize>()));
     cov.insert("cuts_that_left_fewer_facts_than_the_fixpoint".into(), json!(results.iter().map(|r| r.facts_lost_by_cut).sum::<usize>()));
+    cov.insert("pass_level_claims_matched_to_nodes".into(), json!(results.iter().map(|r| r.pass_claims).sum::<usize>()));
     cov.insert("constant_claims_checked".into(), json!(results.iter().map(|r| r.value_claims).sum::<usize>()));
     cov.insert("degree_claims_judged".into(), json!(results.iter().map(|r| r.degree_claims).sum::<usize>()));
     cov.insert("simulated_seconds".into(), json!(results.iter().map(|r| r.sim_ns as i128).sum::<i128>() as f64 / 1e9));
@@ -404,7 +470,10 @@ fn replay_signature(v: &Value, src: &str) -> Option<String> {
     let lines = v["lines"].as_u64().unwrap_or(3) as usize;
     let s = src.to_string();
     let pre = v["prelude"].as_str().unwrap_or("").to_string();
-    let (out, stats) = run_in_sim(&plan, move || evaluate(&pre, &s, curve_idx, oracle_seed, valuations, lines));
+    let dir = crate::procrun::make_scratch();
+    let pth = dir.join("replay.circom");
+    let (out, stats) = run_in_sim(&plan, move || evaluate(&pth, &pre, &s, curve_idx, oracle_seed, valuations, lines));
+    let _ = std::fs::remove_dir_all(&dir);
     match out {
         SimResult::Ok(e) => e.verdict.map(|(k, _)| format!("{}:{k}", if stats.stalls_fired > 0 { "cut" } else { "fixpoint" })),
         SimResult::Panic(p) => {
